@@ -1,4 +1,4 @@
-import SafeNet.Proofs.Lifecycle
+import SafeNet.Proofs.LifecycleCmd
 /-!
 # C19 — service lifecycle state matches the managed processes, even under faults
 
@@ -452,14 +452,15 @@ theorem requested_port_refused (w : World) (count : Nat) (np mp rp : Option (Nat
     cases h2 : checkRange mp count (allPorts w.reg) with
     | some e => exact ⟨rfl, rfl, rfl⟩
     | none =>
-      cases h3 : checkRange rp count (allPorts w.reg) with
+      cases h3 : checkRpc np mp rp count (allPorts w.reg) with
       | some e => exact ⟨rfl, rfl, rfl⟩
       | none =>
         exfalso
         rcases hp with (hp | hp) | hp
         · obtain ⟨e, he⟩ := checkRange_refuses np count _ p hp hin; rw [h1] at he; cases he
         · obtain ⟨e, he⟩ := checkRange_refuses mp count _ p hp hin; rw [h2] at he; cases he
-        · obtain ⟨e, he⟩ := checkRange_refuses rp count _ p hp hin; rw [h3] at he; cases he
+        · obtain ⟨e, he⟩ := checkRange_refuses rp count _ p hp hin
+          simp [checkRpc, he] at h3
 
 /-! ## 7. The saved registry loads back to the same state — NOT a Lean theorem
 
@@ -637,29 +638,27 @@ theorem exec_numbers (w : World) (op : Op) (hn : (w.reg.map (·.number)).Nodup) 
 def SNum (s : Sys) : Prop :=
   (s.w.reg.map (·.number)).Nodup ∧ (s.file.map (·.number)) <+: (s.w.reg.map (·.number))
 
-theorem stepS_nonadd (s : Sys) (o : Op) (hna : ∀ c np mp rp m v f, o ≠ .add c np mp rp m v f) :
-    stepS s (.op o) =
-      ⟨(exec s.w o).1, if callerSaves s.w o (exec s.w o).2.1 then (exec s.w o).1.reg else s.file⟩ := by
-  cases o <;> first | (exfalso; exact hna _ _ _ _ _ _ _ rfl) | rfl
 
-theorem stepS_snum (s : Sys) (sop : SOp) (h : SNum s) : SNum (stepS s sop) := by
+theorem stepS_snum_reload (s : Sys) (h : SNum s) : SNum (stepS s .reload) := by
   obtain ⟨hn, hp⟩ := h
-  cases sop with
-  | reload =>
-    simp only [stepS, execS]
-    exact ⟨hn.sublist hp.sublist, List.prefix_refl _⟩
-  | op o =>
+  rw [stepS_reload]
+  exact ⟨hn.sublist hp.sublist, List.prefix_refl _⟩
+
+theorem stepS_snum_op (s : Sys) (o : Op) (h : SNum s) : SNum (stepS s (.op o)) := by
+  obtain ⟨hn, hp⟩ := h
+  cases (Nat.zero_le 0) with
+  | _ =>
     by_cases hadd : ∃ c np mp rp m v f, o = .add c np mp rp m v f
     · obtain ⟨c, np, mp, rp, m, v, f, rfl⟩ := hadd
-      simp only [stepS, execS]
+      rw [stepS_add]
       obtain ⟨g1, g2⟩ := addNode_numbers s.w ⟨f, 0⟩ s.file c np mp rp m v hn
       refine ⟨g1, ?_⟩
       dsimp only
       split
+      · exact List.prefix_refl _
       · rcases addNode_file0 s.w ⟨f, 0⟩ s.file c np mp rp m v with ⟨_, h2⟩ | h2
         · rw [h2]; exact hp.trans g2
         · rw [h2]; exact List.prefix_refl _
-      · exact List.prefix_refl _
     · have hna : ∀ c np mp rp m v f, o ≠ .add c np mp rp m v f :=
         fun c np mp rp m v f h => hadd ⟨c, np, mp, rp, m, v, f, h⟩
       have he : ((exec s.w o).1.reg.map (·.number)).Nodup ∧
@@ -674,6 +673,10 @@ theorem stepS_snum (s : Sys) (sop : SOp) (h : SNum s) : SNum (stepS s sop) := by
       split
       · exact List.prefix_refl _
       · exact hp.trans he.2
+
+theorem stepS_snum (s : Sys) (sop : SOp) (h : SNum s) : SNum (stepS s sop) :=
+  stepS_closed (Q := fun _ => True) stepS_snum_reload (fun s o _ => stepS_snum_op s o) trivial s sop
+    (by cases sop <;> trivial) h
 
 /-- **Names and data directories stay unique across reloads**: histories may at any point drop the in-memory
 registry and continue from the registry file (`reload`), e.g. after an `add` that returned early or in front of a
@@ -691,31 +694,30 @@ theorem names_dirs_unique_reload (ops : List SOp) :
 /-- Every service definition the OS holds is recorded in the registry file. -/
 def SInst (s : Sys) : Prop := ∀ n, s.w.os.isInstalled n = true → n ∈ s.file.map (·.number)
 
-theorem stepS_sinst (s : Sys) (sop : SOp) (hcl : sop.CleanInstall) (hnum : SNum s) (h : SInst s) :
-    SInst (stepS s sop) := by
+theorem stepS_sinst_op (s : Sys) (o : Op) (hcl : o.CleanInstall) (hnum : SNum s) (h : SInst s) :
+    SInst (stepS s (.op o)) := by
   obtain ⟨hn, hp⟩ := hnum
-  cases sop with
-  | reload => simp only [stepS, execS]; exact h
-  | op o =>
+  cases (Nat.zero_le 0) with
+  | _ =>
     by_cases hadd : ∃ c np mp rp m v f, o = .add c np mp rp m v f
     · obtain ⟨c, np, mp, rp, m, v, f, rfl⟩ := hadd
       obtain ⟨_, g2⟩ := addNode_numbers s.w ⟨f, 0⟩ s.file c np mp rp m v hn
-      simp only [stepS, execS]
+      rw [stepS_add]
       intro n hinst
       dsimp only at hinst ⊢
       rcases saved_after_each_install s.w ⟨f, 0⟩ s.file c np mp rp m v hcl with ⟨h1, h2, h3⟩ | ⟨h2, h3⟩
       · rw [h3 n] at hinst
         have hin := h n hinst
         split
-        · rw [h2]; exact hin
         · rw [h1]; exact hp.subset hin
+        · rw [h2]; exact hin
       · have hmem : n ∈ (addNode s.w ⟨f, 0⟩ s.file c np mp rp m v).1.reg.map (·.number) := by
           rcases h3 n hinst with h4 | ⟨t, ht, htn⟩
           · exact g2.subset (hp.subset (h n h4))
           · rw [h2] at ht; exact List.mem_map.mpr ⟨t, ht, htn⟩
         split
-        · rw [h2]; exact hmem
         · exact hmem
+        · rw [h2]; exact hmem
     · have hna : ∀ c np mp rp m v f, o ≠ .add c np mp rp m v f :=
         fun c np mp rp m v f h => hadd ⟨c, np, mp, rp, m, v, f, h⟩
       have he : (s.w.reg.map (·.number)) <+: ((exec s.w o).1.reg.map (·.number)) := by
@@ -735,7 +737,9 @@ theorem stepS_sinst (s : Sys) (sop : SOp) (hcl : sop.CleanInstall) (hnum : SNum 
           · rw [h1] at hinst ⊢
             rcases restartAt_inst s.w j r f hcl n hinst with h4 | h4
             · exact Or.inl h4
-            · exact Or.inr ⟨by simpa [callerSaves] using hsome, h4⟩
+            · exact Or.inr ⟨by
+                have := gen_daemon_saves
+                simp [callerSaves, callerSavesC, savesAfter, this.1, this.2, hsome], h4⟩
         · have hnr : ∀ i r f, o ≠ .drestart i r f := fun i r f h => hdr ⟨i, r, f, h⟩
           exact Or.inl (exec_instSub s.w o hna hnr n hinst)
       rcases hkey with h4 | ⟨hsave, h4⟩
@@ -745,13 +749,20 @@ theorem stepS_sinst (s : Sys) (sop : SOp) (hcl : sop.CleanInstall) (hnum : SNum 
         · exact hin
       · rw [if_pos hsave]; exact h4
 
+theorem stepS_sinst (s : Sys) (sop : SOp) (hcl : sop.CleanInstall) (h : SNum s ∧ SInst s) :
+    SNum (stepS s sop) ∧ SInst (stepS s sop) :=
+  stepS_closed (P := fun s => SNum s ∧ SInst s) (Q := Op.CleanInstall)
+    (fun s h => ⟨stepS_snum_reload s h.1, by rw [stepS_reload]; exact h.2⟩)
+    (fun s o hq h => ⟨stepS_snum_op s o h.1, stepS_sinst_op s o hq h.1 h.2⟩) trivial s sop
+    (by cases sop <;> first | exact hcl | trivial) h
+
 theorem runS_inv (ops : List SOp) (hcl : ∀ op ∈ ops, op.CleanInstall) (s : Sys) (h : SNum s ∧ SInst s) :
     SNum (runS s ops) ∧ SInst (runS s ops) := by
   induction ops generalizing s with
   | nil => exact h
   | cons op r ih =>
     exact ih (fun o ho => hcl o (List.mem_cons_of_mem _ ho)) (stepS s op)
-      (And.intro (stepS_snum s op h.1) (stepS_sinst s op (hcl op (List.mem_cons_self ..)) h.1 h.2))
+      (stepS_sinst s op (hcl op (List.mem_cons_self ..)) h)
 
 /-- **Every installed service is recorded in the registry file**, after every step of every history (any faults,
 kills, reloads, daemon restarts) in which no `install` of an `add` / a daemon restart wrote its definition and then
@@ -781,7 +792,8 @@ whose first start failed is in the file. -/
 theorem daemon_restart_saves (s : Sys) (i : Nat) (retain : Bool) (faults : List Fault) (hi : (s.w.reg[i]?).isSome = true) :
     (stepS s (.op (.drestart i retain faults))).file = (stepS s (.op (.drestart i retain faults))).w.reg := by
   rw [stepS_nonadd s _ (fun _ _ _ _ _ _ _ h => by cases h)]
-  simp [callerSaves, hi]
+  have := gen_daemon_saves
+  simp [callerSaves, callerSavesC, savesAfter, this.1, this.2, hi]
 
 /-- A successful daemon restart leaves the addressed service (retained peer id) recorded Running with a live process of
 the recorded pid, in any state that satisfies the invariants (no refresh is needed in front of it). -/
